@@ -137,6 +137,8 @@ func Explore(prog *ssa.Program, fn *ssa.Function, opt Options) (res Result) {
 			mapOrderND: opt.MapOrderND, mapOrderMax: opt.MapOrderMax, tier: opt.Tier, maxCex: opt.MaxCex, maxRand: 12}
 		i.ex = ex
 		i.funcs = res.Functions
+		i.killAck = make(chan struct{}, 64)
+		i.initThreads()
 		func() {
 			defer func() {
 				if r := recover(); r != nil {
@@ -158,9 +160,10 @@ func Explore(prog *ssa.Program, fn *ssa.Function, opt Options) (res Result) {
 					}
 				}
 			}()
+			defer i.killThreads()
 			i.ensureInit(fn.Pkg)
 			callSSA(i, nil, token.NoPos, fn, nil, nil)
-			i.runQueued()
+			i.drain()
 			// sample a model of a completed path
 			if len(res.Samples) < 3 && len(ex.names) > 0 {
 				if ex.check() == "sat" {
@@ -180,7 +183,10 @@ func (i *interpreter) stackString() string {
 	if len(i.lastStack) > 0 {
 		return strings.Join(i.lastStack, " > ")
 	}
-	return strings.Join(i.callDepth, " > ")
+	if i.cur != nil {
+		return strings.Join(i.cur.callDepth, " > ")
+	}
+	return ""
 }
 
 func SortedKeys(m map[string]bool) []string {
